@@ -30,6 +30,7 @@ SPEC = {
         "align indices in [0, n) or >= n (negative indices, which the code accepts and stores as a negative pointer, are outside the modelled domain)",
         "readrange/writerange lengths 1..n (the property's quantifier); length 0 or > n on scalar readrange is not validated by the code and is not generated",
         "dtype classes: int64 vs float32; device CPU",
+        "storage containers: plain tensor / buffer, nn.Parameter(requires_grad=False), nn.Parameter(requires_grad=True, float only); no backward pass is run",
     ],
 }
 DRIVER = "drivers/C01.lean"
@@ -81,6 +82,11 @@ class Real:
     def _begin(self, n, store):
         self.n = n
         kind = store.split(":")
+        # container of the storage: plain tensor / buffer (no prefix), `p` = nn.Parameter(requires_grad=False),
+        # `g` = nn.Parameter(requires_grad=True); the property does not distinguish them (same list-of-observations history)
+        box = None
+        if kind[0][0] in "pg" and kind[0][1:] in ("empty", "uninit", "zeros"):
+            box, kind[0] = kind[0][0] == "g", kind[0][1:]
         if kind[0] == "none":
             val = None
         elif kind[0] == "empty":
@@ -91,6 +97,11 @@ class Real:
             val = torch.zeros(shp(kind[2]), dtype=torch.int64 if kind[1] == "i" else torch.float32)
         else:
             raise AssertionError(store)
+        if box is not None:
+            if kind[0] == "uninit":
+                val = nn.UninitializedParameter(requires_grad=box, dtype=val.dtype)
+            else:
+                val = nn.Parameter(val, box)
         self.owner = inferno.Module()
         RecordTensor.create(self.owner, "rec", 1.0, float(n), val, inclusive=False)
         self.rt = self.owner.rec
@@ -129,6 +140,9 @@ class Real:
             return "None" if r is None else "row " + row_s(r)
         if op == "peek":
             r = rt.peek()
+            return "None" if r is None else "row " + row_s(r)
+        if op == "latest":
+            r = rt.latest
             return "None" if r is None else "row " + row_s(r)
         if op == "read":
             return "row " + row_s(rt.read(int(tok[1])))
@@ -224,7 +238,15 @@ def offs_tok(rng, shape, lo, hi, const=None):
 
 
 def _canon_line(line: str) -> str:
-    """for the model an offset tensor is its integer values: drop the dtype tag"""
+    """for the model an offset tensor is its integer values: drop the dtype tag; a record whose storage is an nn.Parameter is
+    the same history as one whose storage is a buffer: drop the container prefix; `latest` is `peek`"""
+    if line.startswith("begin "):
+        toks = line.split(" ")
+        if toks[2][0] in "pg" and toks[2].split(":")[0][1:] in ("empty", "uninit", "zeros"):
+            toks[2] = toks[2][1:]
+        return " ".join(toks)
+    if line == "latest":
+        return "peek"
     if line.startswith(("readrangeT ", "writerangeT ")):
         toks = line.split(" ")
         toks = [";".join(t.split(";")[:2]) if t.count(";") == 2 and t.split(";")[2] in OFF_DTYPES else t for t in toks]
@@ -239,12 +261,12 @@ def b(x):
     return "T" if x else "F"
 
 
-def setup(n, p, shape, dt="f", fill=None):
-    """state with pointer p and pairwise distinct contents: n + p pushes onto zero storage."""
+def setup(n, p, shape, dt="f", fill=None, box=""):
+    """state with pointer p and pairwise distinct contents: n + p pushes onto zero storage (`box`: storage container prefix)."""
     P = 1
     for s in shape:
         P *= s
-    lines = [f"begin {n} zeros:{dt}:{shp_s(shape)}"]
+    lines = [f"begin {n} {box}zeros:{dt}:{shp_s(shape)}"]
     c = 8
     for i in range(n + p):
         vals = ",".join(str(c * (i * P + q + 1)) for q in range(P))
@@ -284,6 +306,63 @@ def exhaustive_cases(maxn, shapes, rng):
                 add("reset 12")
                 add("reset N")
     return cases
+
+
+OBSERVERS = ["peek", "latest", "read 1"]
+
+
+def observed_cases(maxn, shapes, rng):
+    """every single MUTATING operation of the exhaustive stream, with the newest observation looked at (peek / latest / read 1)
+    immediately before and immediately after it, on a record whose storage is a buffer, an nn.Parameter, or an nn.Parameter
+    requiring grad: whatever a read returned earlier, the next read must return what the list model holds NOW."""
+    cases = []
+    for n in range(1, maxn + 1):
+        for shape in shapes:
+            for p in range(n):
+                for box in ("", "p", "g"):
+                    pre = setup(n, p, shape, box=box)
+
+                    def add(op):
+                        before = [rng.choice(OBSERVERS[:2])] + ([rng.choice(OBSERVERS)] if rng.random() < 0.3 else [])
+                        after = rng.sample(OBSERVERS, 3)
+                        cases.append(pre + before + [op] + after + ["dump"])
+                    for o in range(0, 2 * n + 1):
+                        add(f"write {obs_tok(rng, 'f', shape)} {o} F")
+                        if o % n == 1 % n:
+                            add(f"write {obs_tok(rng, 'f', shape)} {o} T")
+                        for L in range(1, n + 1):
+                            for fwd in (False, True):
+                                ip = rng.random() < 0.2
+                                add(f"writerange {range_tok(rng, 'f', shape, L)} {o} {b(fwd)} {b(ip)}")
+                                add(f"writerangeT {range_tok(rng, 'f', shape, L)} {offs_tok(rng, shape, 0, 2 * n, const=o)} {b(fwd)} {b(ip)}")
+                                add(f"writerangeT {range_tok(rng, 'f', shape, L)} {offs_tok(rng, shape, 0, 2 * n)} {b(fwd)} {b(ip)}")
+                    for q in range(0, n + 2):
+                        add(f"incr {q}")
+                        add(f"decr {q}")
+                    for i in range(0, n):
+                        add(f"align {i}")
+                    add("pop")
+                    add(f"push {obs_tok(rng, 'f', shape)} F")
+                    add(f"push {obs_tok(rng, 'f', shape)} T")
+                    add("reset 0")
+                    add("reset 12")
+                    add("reset N")
+    return cases
+
+
+def with_observers(case, rng, box):
+    """a random sequence re-run (a) on another storage container and (b) with reads of the newest observation interleaved after
+    every operation (the list model is unaffected by reads, so the expectation is the driver's on the longer sequence)."""
+    head = case[0].split(" ")
+    kind = head[2].split(":")
+    if box and kind[0] in ("empty", "uninit", "zeros") and not (box == "g" and kind[1] == "i"):
+        head[2] = box + head[2]
+    out = [" ".join(head)]
+    for l in case[1:]:
+        out.append(l)
+        if l != "dump" and rng.random() < 0.7:
+            out.append(rng.choice(OBSERVERS))
+    return out
 
 
 OPS = ["push", "push", "push", "pop", "peek", "read", "write", "readrange", "readrangeT", "writerange",
@@ -372,6 +451,10 @@ def explore(ctx) -> Exploration:
     nrand = 400 if not thorough else 3000
     rnd = [random_case(rng) for _ in range(nrand)] + [random_case(rng, big=True) for _ in range(nrand // 8)]
     cases += rnd
+    obs = observed_cases(3 if not thorough else 5, shapes, rng)
+    nobs = nrand // 2
+    robs = [with_observers(random_case(rng, big=i % 10 == 9), rng, ("", "p", "p", "g")[i % 4]) for i in range(nobs)]
+    cases += obs + robs
     for c in cases:
         for l in c:
             ex.count("ops", l.split()[0])
@@ -387,10 +470,14 @@ def explore(ctx) -> Exploration:
     ex.rule = ("cases = corpus + exhaustive single operations (every n<=%d, every pointer position, every offset in [0,2n], "
                "every length in [1,n], forward/backward, in-place/out-of-place, scalar and tensor offsets) applied to a ring with "
                "pairwise distinct contents + seeded random operation sequences (n in 1..6 and 14..27, five observation shapes, "
-               "six storage kinds, int/float mixing, 25%% malformed); a case is non-trivial when at least one operation other than "
-               "begin/dump succeeded on the real object; distinct = distinct protocol text" % (4 if not thorough else 6))
+               "six storage kinds, int/float mixing, 25%% malformed) + every single mutating operation (n<=%d) with peek / latest / read(1) "
+               "immediately before and after it, on buffer-, nn.Parameter- and grad-requiring nn.Parameter-backed storage + random "
+               "sequences with such reads interleaved after every operation on the three storage containers; a case is non-trivial when at least one operation other than "
+               "begin/dump succeeded on the real object; distinct = distinct protocol text" % (4 if not thorough else 6, 3 if not thorough else 5))
     ex.samples = [cases[ncorpus] if len(cases) > ncorpus else [], rnd[0], rnd[-1]]
-    ex.extra["streams"] = {"corpus": ncorpus, "exhaustive_single_step": len(exh), "random_sequences": len(rnd)}
+    ex.extra["streams"] = {"corpus": ncorpus, "exhaustive_single_step": len(exh), "random_sequences": len(rnd),
+                           "observed_single_step(buffer/Parameter/Parameter+grad)": len(obs),
+                           "random_sequences_with_interleaved_reads_and_Parameter_storage": len(robs)}
     errs = {}
     return ex
 
